@@ -621,3 +621,38 @@ def c12(tier, seed):
                     sigfn=lambda sc, tup: {"fam": "shade", "kind": sc["src"]["kind"], "alpha_lt_1": sc["alpha"][0] != sc["alpha"][1]})
     v.samples = [scs[0], scs[-1]]
     return v.finish()
+
+
+# ---------------------------------------------------------------------------------------------
+# strokes, dashes, curves
+# ---------------------------------------------------------------------------------------------
+def stroke_sig(sc, tup):
+    st = sc.get("style", {})
+    return {"fam": sc.get("fam"), "kind": sc.get("kind"), "join": st.get("join"), "cap": st.get("cap"), "dashed": "dash" in st}
+
+
+@prop("C04")
+def c04(tier, seed):
+    v = Verdicts("C04", tier, seed)
+    th = tier == "thorough"
+    v.rule = ("Gen_Stroke: polylines of 1-3 segments (thorough: up to 4, two subpaths) from a direction menu with integer lengths "
+              "(axis, 3-4-5 and 5-12-13 directions: turning angles 0..180 degrees), open and closed, with style (4 widths x 3 caps x 3 joins x "
+              "4 miter limits) and transform (identity, scale 2, 1/2, quarter-pixel shift, rotation by 90 and atan(4/3), mirror) by hash; "
+              "non-trivial = both must-paint and must-not-paint pixels exist")
+    v.trusted = ["harness render (harness/src/strokefam.rs)", "Stroke.tla piece construction in 1/64 px with rounding bound EPS added to the margin"]
+    scs = []
+    for fam, nseg, nvar, sim in ((5, 2, 1, None), (13, 2, 1, None), (5, 3, 1, 250 if not th else 1500), (13, 3, 1, 150 if not th else 800)):
+        env = {"FAMILY": fam, "NSEG": nseg, "NSUB": 1, "NVAR": (2 if th else nvar), "SALT": seed}
+        if sim:
+            env["NSUB"] = 2 if th else 1
+            g, s1 = gen_scenarios("C04", "Gen_Stroke", env=env, simulate=sim, depth=12, seed=seed + fam, workers=1)
+        else:
+            g, s1 = gen_scenarios("C04", "Gen_Stroke", env=env)
+        v.add_tlc(g)
+        scs += s1
+    if not th:
+        scs = [s for k, s in enumerate(scs) if k % 3 == seed % 3] if len(scs) > 900 else scs
+    v.exhaustive = th
+    simple_validate("C04", v, scs, "all", "Trace_Stroke", sigfn=stroke_sig, timeout=3000)
+    v.samples = [scs[0], scs[-1]]
+    return v.finish()
